@@ -186,7 +186,32 @@ def export_cases(ctx, rng, n, tid0):
                     diff.append(f"{c2}: exported {a_}, re-rendered {b_}")
             ev["diff"] = diff[:6]
             ev["same"] = not diff
-        out.append({"tid": tid0 + len(out) + 1, "net": [], "pr": [], "ev": [ev], "origin": "export"})
+        evs = [ev]
+        if ev["exported"] and not ev["refused"]:
+            # the network is edited and exported AGAIN into the same project (overwrite=True): the project's files must describe the network
+            # as it is now
+            ev2 = {"act": "Export", "exported": True, "refused": False, "same": True, "diff": [], "eb": eb, "yields": yl, "ices": chosen, "second": True}
+            try:
+                Species.reset()
+                net.reaction_list[0].alpha = 3.3
+                net.add_reaction(Reaction(["H", "H"], ["H2"], 10.0, 300.0, 2.0e-17, 0.5, 0.0, RT.GAS_TWOBODY, 99))
+                with quiet():
+                    net.export("proj", prefix=d, overwrite=True)
+                before = snapshot()
+                pr = subprocess.run(["/venv/bin/python", "-c", RERENDER.format(root=str(REPO))], cwd=proj, capture_output=True, text=True, timeout=600,
+                                    env=dict(os.environ, PYTHONPATH=str(REPO)))
+                if pr.returncode != 0:
+                    ev2["refused"], ev2["err"] = True, (pr.stderr or pr.stdout)[-200:]
+                else:
+                    after = snapshot()
+                    diff = [f"k[{i2}]: exported {before[0].get(i2, '-')[:110]!r}, re-rendered {after[0].get(i2, '-')[:110]!r}"
+                            for i2 in sorted(set(before[0]) | set(after[0]))
+                            if i2 not in before[0] or i2 not in after[0] or same_value(before[0][i2], after[0][i2]) is False]
+                    ev2["diff"], ev2["same"] = diff[:6], not diff
+            except Exception as e:   # noqa
+                ev2["exported"], ev2["err"] = False, f"{type(e).__name__}: {str(e)[:120]}"
+            evs.append(ev2)
+        out.append({"tid": tid0 + len(out) + 1, "net": [], "pr": [], "ev": evs, "origin": "export"})
     Species.reset()
     chemistrydata.user_binding_energy.clear()
     chemistrydata.user_photon_yield.clear()
